@@ -102,6 +102,10 @@ impl WalIndex {
             .parent()
             .filter(|p| !p.as_os_str().is_empty())
         {
+            #[cfg(walrus_verif)]
+            if crate::wal::verif::io_event("sync_dir", "", 0, 0) == crate::wal::verif::IoDecision::Fail {
+                return Err(crate::wal::verif::injected_error());
+            }
             fs::File::open(dir)?.sync_all()?;
         }
         Ok(())
